@@ -33,7 +33,7 @@ PROPS = {
             # refcount assertion at process completion in Executor::step, the underflow / use-after-free
             # debug_assert!s in release / retain / get_binary_data), so for these units every class counts
             "heap": (None, ALL),
-            "handlers": (None, ALL),
+            "handlers": (None, ALL, "crash"),
             # units that mix select / scheduling semantics with accounting: every safety obligation, and of the others
             # those whose failing conjunct is about the counts (a drift is a debug-build panic) or about failure
             # containment (topic "crash", cli._topic_ok)
@@ -84,7 +84,7 @@ PROPS = {
         "title": "Binary heap accounting (function-level)",
         "units": {
             "heap": (None, ALL),
-            "handlers": (None, ALL),
+            "handlers": (None, ALL, "acct"),
             # only the conjuncts that speak about the heap and the counts (topic "acct"): a select-priority or
             # scheduling clause of the same contract belongs to C05 / C15
             "coldpath": (None, ALL, "acct"),
